@@ -23,13 +23,22 @@ def fixtures():
         NORTH = 0
         SOUTH = 1
 
-    class Point(S.Serializable):
+    class PointBase(S.Serializable):
+        x: object = None
+
+    # the base class is used first: whatever the library remembers per class (type ids, headers, field tables) is in place before the subclass appears
+    S.Serializable.loadb(PointBase().dumpb())
+
+    class Point(PointBase):
         x: object = None
         y: object = None
 
     class Empty(S.Serializable):
         pass
-    _fix.update(S=S, Color=Color, Shape=Shape, Facing=Facing, Point=Point, Empty=Empty)
+    class Opp(S.SerializableEnum):          # string-valued; every member's NAME is another member's VALUE
+        NORTH = "SOUTH"
+        SOUTH = "NORTH"
+    _fix.update(S=S, Color=Color, Shape=Shape, Facing=Facing, Point=Point, Empty=Empty, Opp=Opp, PointBase=PointBase)
     return _fix
 
 
